@@ -24,8 +24,9 @@ type Case struct {
 
 func Spec() *mon.Spec {
 	return &mon.Spec{
-		ID:    "C09",
-		Level: "exploration",
+		ID:      "C09",
+		RuleAdd: "Later additions (rounds 4-17): transaction ids 0/65535; FC15 spare bits set; parsers run on whatever the encoder emitted; decoded requests stay intact when the input buffer is overwritten and when an earlier decoded value is zeroed by its receiver; CRC twins parsed one after the other.",
+		Level:   "exploration",
 		Rule: "legal: requests legal per the specification, built by the library's constructors (FC23 read quantity 125 via struct literal, which the constructor refuses), encoded with Bytes(), then parsed by the dispatcher(s) (ParseTCPRequest | ParseRTURequest, ParseRTURequestWithCRC) and the per-function parser (RTU also without the CRC trailer): no error, reflect.DeepEqual(parsed, original), parsed.Bytes()==original.Bytes(). Whole legal quantity axis for FC1-4/15/16/23, PRNG addresses/units/tids/payloads. " +
 			"illegal: reference-encoded frames with quantity 0 or above the function's limit (whole axis to 65535, byte count consistent where one exists), FC5 all 65536 values, FC23 read and write quantities: every parser must return an error. distinct key=(fc, framing, quantity, entry point, legal?).",
 		Assumptions: []string{"legality per specref (V1.1b3 limits)"},
